@@ -30,6 +30,7 @@ json generate(uint64_t seed, uint64_t idx, int tier)
 	sg.vcb2 = true;
 	sg.keystrval = r.chance(1, 4);
 	sg.max_opts = 6;
+	sg.deprecated = r.chance(1, 2); // deprecated and dropped options are validated like any other
 	sg.simple = r.chance(1, 2); // options bound to application variables keep no value list: callbacks must still run for them
 	json schema = gen_schema(r, sg);
 	strip_defaults_of_callback_options(schema["opts"]);
@@ -110,7 +111,11 @@ json generate(uint64_t seed, uint64_t idx, int tier)
 		}
 		for (auto &pth : registered) {
 			json sv = step(0, "setvalidate", 0);
-			sv["name"] = pth;
+			std::string written = pth.get<std::string>();
+			if ((flags & F_NOCASE) && r.chance(1, 2)) // case-insensitive context: the path may be spelled in any letter case
+				for (auto &ch : written)
+					ch = (char)toupper((unsigned char)ch);
+			sv["name"] = written;
 			sv["keep"] = 1;
 			steps.push_back(sv);
 		}
@@ -226,7 +231,7 @@ JudgeOut judge(const json &plan)
 		for (auto &pth : params["registered"]) {
 			bool still_registered = false; // the registration step may have been removed by the minimiser
 			for (auto &st : steps)
-				if (st["op"] == "setvalidate" && st.value("name", std::string()) == pth.get<std::string>())
+				if (st["op"] == "setvalidate" && strcasecmp(st.value("name", std::string()).c_str(), pth.get<std::string>().c_str()) == 0) // (a case-insensitive context may spell it differently)
 					still_registered = true;
 			if (!still_registered)
 				continue;
